@@ -36,10 +36,8 @@ mod verif_drawing {
 
     /// (copy of the initial image, image) with symbolic contents.
     fn any_image<const R: usize, const C: usize>() -> (NdTensor<u8, 2>, NdTensor<u8, 2>) {
-        let mut data = Vec::with_capacity(R * C);
-        for _ in 0..R * C {
-            data.push(kani::any::<u8>());
-        }
+        let cells: [u8; N * N] = kani::any();
+        let data = cells[..R * C].to_vec();
         let old = NdTensor::<u8, 2>::from_data([R, C], data.clone());
         let img = NdTensor::<u8, 2>::from_data([R, C], data);
         (old, img)
@@ -89,7 +87,7 @@ mod verif_drawing {
     /// Rect inside the image (edges in [0, N], possibly inverted / empty):
     /// only pixels inside the rect change.
     #[kani::proof]
-    #[kani::unwind(18)]
+    #[kani::unwind(6)]
     pub fn fill_rect_in_image() {
         let (old, mut img) = any_image::<N, N>();
         let (t, l, b, r) = (
@@ -112,7 +110,7 @@ mod verif_drawing {
     /// Any rect with coordinates in [LO, HI] (partly or wholly outside the image, inverted,
     /// empty): no panic, and only pixels inside image /\ rect change.
     #[kani::proof]
-    #[kani::unwind(18)]
+    #[kani::unwind(12)]
     pub fn fill_rect_any_rect() {
         let (old, mut img) = any_image::<N, N>();
         let (t, l, b, r) = (any_coord(), any_coord(), any_coord(), any_coord());
@@ -137,7 +135,7 @@ mod verif_drawing {
     /// Non-inverted rect inside the image, border width not larger than either side:
     /// only pixels on the border band of that width change.
     #[kani::proof]
-    #[kani::unwind(18)]
+    #[kani::unwind(6)]
     pub fn stroke_rect_in_image_band() {
         let (old, mut img) = any_image::<N, N>();
         let (t, l, b, r) = (
@@ -167,7 +165,7 @@ mod verif_drawing {
     /// (so that `fill_rect` is only called with in-image rects): only pixels inside the rect
     /// change. Separates "stroke wider than the rect / inverted rect" from fill_rect's clipping.
     #[kani::proof]
-    #[kani::unwind(18)]
+    #[kani::unwind(6)]
     pub fn stroke_rect_in_image_wide() {
         let (old, mut img) = any_image::<N, N>();
         let (t, l, b, r) = (
@@ -193,7 +191,7 @@ mod verif_drawing {
 
     /// Any rect in the window, border width <= 5: no panic, only pixels inside image /\ rect change.
     #[kani::proof]
-    #[kani::unwind(18)]
+    #[kani::unwind(12)]
     pub fn stroke_rect_any_rect() {
         let (old, mut img) = any_image::<N, N>();
         let (t, l, b, r) = (any_coord(), any_coord(), any_coord(), any_coord());
@@ -264,7 +262,7 @@ mod verif_drawing {
     /// Thin line, endpoints anywhere in the window: no panic; changed pixels lie inside the
     /// closed box spanned by the endpoints clamped to the image.
     #[kani::proof]
-    #[kani::unwind(18)]
+    #[kani::unwind(6)]
     pub fn draw_line_thin_clamped_box() {
         let (old, mut img) = any_image::<N, N>();
         let (p, q) = any_line();
@@ -288,7 +286,7 @@ mod verif_drawing {
     /// Thin line, endpoints anywhere in the window: changed pixels lie inside the line's own
     /// bounding box (closed box spanned by the *given* endpoints) -- "inside the shape's bounds".
     #[kani::proof]
-    #[kani::unwind(18)]
+    #[kani::unwind(6)]
     pub fn draw_line_thin_line_box() {
         let (old, mut img) = any_image::<N, N>();
         let (p, q) = any_line();
@@ -307,7 +305,7 @@ mod verif_drawing {
 
     /// Images with zero rows or zero columns: draw_line must not panic (nothing to draw on).
     #[kani::proof]
-    #[kani::unwind(18)]
+    #[kani::unwind(6)]
     pub fn draw_line_thin_empty_image() {
         let (p, q) = any_line();
         let v: u8 = kani::any();
@@ -328,7 +326,7 @@ mod verif_drawing {
     /// Polygons with 0..=3 vertices anywhere in the window, stroke width 0 or 1: no panic;
     /// changed pixels lie inside the closed box spanned by the vertices clamped to the image.
     #[kani::proof]
-    #[kani::unwind(18)]
+    #[kani::unwind(6)]
     pub fn draw_polygon_thin_clamped_box() {
         let (old, mut img) = any_image::<N, N>();
         let pts = [
